@@ -56,6 +56,37 @@ def _large(draw):
             "build": None, "coords": None, "fill": n}
 
 
+@st.composite
+def _later_supplied(draw):
+    """the chains to build are listed first, the supplied single-bead molecules after them (-res names the chain's
+    residues); most of the user's start points lie on or right next to a supplied bead, a few are free"""
+    n = draw(st.integers(27, 64))
+    w = {"resname": "W", "atoms": [{"name": "w", "type": "TB", "mass": 72.0}], "bonds": [], "vs": None}
+    ra = {"resname": "RA", "atoms": [{"name": "a1", "type": "TA", "mass": 72.0}], "bonds": [], "vs": None}
+    length = draw(st.integers(1, 5))
+    sol = {"name": "SOL", "residues": [w], "res_edges": [], "shape": "linear"}
+    ma = {"name": "MA", "residues": [ra] * length, "res_edges": [[i, i + 1] for i in range(length - 1)], "shape": "linear"}
+    nchain = draw(st.integers(1, 2))
+    beads = [[round(0.25 + 0.5 * (k % 4), 3), round(0.25 + 0.5 * ((k // 4) % 4), 3), round(0.25 + 0.5 * (k // 16), 3)]
+             for k in range(n)]
+    near = draw(st.lists(st.sampled_from(beads), min_size=6, max_size=14))
+    shift = draw(st.sampled_from([[0.0, 0.0, 0.0], [0.05, 0.0, 0.0], [0.0, 0.2, 0.0], [0.15, 0.15, 0.0]]))
+    free = [[4.5 + 0.0 * i, 1.0 + 1.5 * i, 4.5] for i in range(3)] + [[1.0 + 1.5 * i, 4.5, 4.0] for i in range(2)]
+    grid = [[round(p[0] + shift[0], 3), round(p[1] + shift[1], 3), round(p[2] + shift[2], 3)] for p in near] + free
+    grid = list(draw(st.permutations(grid)))
+    atoms = [[1, "W", "w", b] for b in beads]
+    box = [6.0, 6.0, 6.0]
+    spec = {"rng": draw(st.integers(0, 2**31 - 1)), "comb": 2,
+            "atomtypes": [{"name": "TA", "mass": 72.0, "sigma": 0.47, "eps": 2.0},
+                          {"name": "TB", "mass": 72.0, "sigma": draw(st.sampled_from([0.43, 0.47])), "eps": 2.0}],
+            "moltypes": [ma, sol], "molecules": [["MA", nchain], ["SOL", n]],
+            "opts": {"box": box, "max_force": draw(st.sampled_from([300.0, 1000.0, 5e4])), "grid": grid,
+                     "build_res": ["RA"]},
+            "build": None, "later_supplied": True,
+            "coords": {"mode": "c", "nres": n, "atoms": atoms, "box": box, "total_res": n}}
+    return spec
+
+
 def _fill(spec):
     """coordinates of the spec["fill"] supplied beads: a 0.5 nm lattice filled layer by layer from z = 0"""
     n = spec["fill"]
@@ -95,6 +126,8 @@ def _strategy(draw):
         return draw(_rings())
     if draw(st.integers(0, 9)) == 0:
         return draw(_contrast())
+    if draw(st.integers(0, 11)) == 0:
+        return draw(_later_supplied())
     if draw(st.integers(0, 39)) == 0:
         return draw(_large())
     spec = draw(gc.system(max_res=8, max_total_mol=5, variants=True))
@@ -154,6 +187,8 @@ def check(spec, ctx):
     if spec.get("fill"):
         spec = _fill(spec)
         ctx.label("second_neighbour_tree")
+    elif spec.get("later_supplied"):
+        ctx.label("built_molecules_listed_before_supplied_ones")
     elif spec.get("coords"):
         ctx.label("partly_supplied")
     opts = spec["opts"]
